@@ -33,16 +33,22 @@ Theorem C08_from_float_faithful : forall f z,
 Proof. exact from_float_int. Qed.
 Print Assumptions C08_from_float_faithful.
 
-(** integer arithmetic returns the true result, or falls back to floating point — never wraps *)
+(** integer arithmetic returns the true integer, or - beyond i64 - the float computation AS A FLOAT (a value [from_float]
+    leaves a float), or an error: never an integer that is not the result - not wrapped, not saturated (fix 9eb768d: a
+    result in [-2^63 - 1024, -2^63) rounds to the double -2^63, which is an integer in range, and used to come out
+    as the integer i64::MIN) *)
 Theorem C08_no_wrap : forall a b v,
   (vadd (VInt a) (VInt b) = Ok v ->
-     (v = VInt (a + b) /\ in_i64 (a + b) = true) \/ (in_i64 (a + b) = false /\ v = from_float (fadd (f_of_Z a) (f_of_Z b)))) /\
+     (v = VInt (a + b) /\ in_i64 (a + b) = true) \/
+     (in_i64 (a + b) = false /\ v = VFloat (fadd (f_of_Z a) (f_of_Z b)) /\ from_float (fadd (f_of_Z a) (f_of_Z b)) = VFloat (fadd (f_of_Z a) (f_of_Z b)))) /\
   (vsub (VInt a) (VInt b) = Ok v ->
-     (v = VInt (a - b) /\ in_i64 (a - b) = true) \/ (in_i64 (a - b) = false /\ v = from_float (fsub (f_of_Z a) (f_of_Z b)))) /\
+     (v = VInt (a - b) /\ in_i64 (a - b) = true) \/
+     (in_i64 (a - b) = false /\ v = VFloat (fsub (f_of_Z a) (f_of_Z b)) /\ from_float (fsub (f_of_Z a) (f_of_Z b)) = VFloat (fsub (f_of_Z a) (f_of_Z b)))) /\
   (vmul (VInt a) (VInt b) = Ok v ->
-     (v = VInt (a * b) /\ in_i64 (a * b) = true) \/ (in_i64 (a * b) = false /\ v = from_float (fmul (f_of_Z a) (f_of_Z b)))).
+     (v = VInt (a * b) /\ in_i64 (a * b) = true) \/
+     (in_i64 (a * b) = false /\ v = VFloat (fmul (f_of_Z a) (f_of_Z b)) /\ from_float (fmul (f_of_Z a) (f_of_Z b)) = VFloat (fmul (f_of_Z a) (f_of_Z b)))).
 Proof.
-  intros a b v. repeat split; cbn; intros H; injection H as H; now apply int_or_float_sound.
+  intros a b v. repeat split; cbn; intros H; now apply int_or_float_sound.
 Qed.
 Print Assumptions C08_no_wrap.
 
